@@ -148,6 +148,22 @@ func draw(rt *rapid.T) descriptor {
 			ne++
 			d.Script = append(d.Script, drive.Stim{Kind: "event", Ev: drawEv()})
 		default:
+			if rapid.Bool().Draw(rt, "backToBack") {
+				// 3..7 events that match nothing, delivered back-to-back, with at most
+				// one matching event somewhere among them (more than an inbox holds)
+				k := rapid.IntRange(3, 7).Draw(rt, "nonMatching")
+				var evs []drive.Stim
+				for j := 0; j < k; j++ {
+					evs = append(evs, drive.Stim{Kind: "event", Ev: &model.Ev{Kind: "signal", Ref: "zz"}})
+				}
+				if rapid.IntRange(0, 3).Draw(rt, "withMatch") != 0 {
+					e := evOf(d.Catches[rapid.IntRange(0, n-1).Draw(rt, "which")].Def)
+					pos := rapid.IntRange(0, k).Draw(rt, "matchPos")
+					evs = append(evs[:pos], append([]drive.Stim{{Kind: "event", Ev: &e}}, evs[pos:]...)...)
+				}
+				d.Script = append(d.Script, drive.Stim{Kind: "rapid", Burst: evs})
+				continue
+			}
 			if ne+2 > maxEvents {
 				continue
 			}
@@ -172,6 +188,10 @@ func classify(d descriptor, out *drive.ScriptOutcome) (cls []string, nt bool) {
 		}
 		if s.Kind == "burst" {
 			events += len(s.Burst)
+		}
+		if s.Kind == "rapid" {
+			events += len(s.Burst)
+			cls = append(cls, "backToBack")
 		}
 	}
 	cls = append(cls, "shape="+d.Shape, fmt.Sprintf("events=%d", events))
